@@ -144,34 +144,36 @@ def spawn_default(run, f):
     calls = [k for k in live_calls(b) if callee(k.term) == "spawn_with_mailbox_capacity"]
     if not run.require(len(calls) == 1, "O9.3", "spawn-delegates", "spawn does not delegate to spawn_with_mailbox_capacity exactly once", "delegates once"):
         return
-    cap = strip_wrappers(tr.norm(tr.call_args(calls[0].idx)[1]))
+    # the capacity argument as a path-wise denotation (pathsem): independent of the spelling
+    # (`get().copied().unwrap_or(D)`, `match get() {Some(&v) => v, None => D}`, `get().map_or(D, |&v| v)`, a helper fn, ...)
+    import pathsem
+    cfg_static = configured_static(f)
     good = False
     dflt = None
-    cfg_static = configured_static(f)
-    if cap[0] == "call" and cap[2].endswith("unwrap_or"):
-        a = [tr.norm(x) for x in tr.call_args(cap[1])]
-        dflt = a[1]
-        c1 = strip_wrappers(a[0])
-        if c1[0] == "call" and c1[2].endswith("copied"):
-            c2 = strip_wrappers(tr.norm(tr.call_args(c1[1])[0]))
-            if c2[0] == "call" and c2[2].startswith("std::sync::OnceLock") and c2[2].endswith("::get"):
-                st = _static_arg(b, tr, c2[1])
-                good = st is not None and st == cfg_static
-    elif cap[0] == "phi" and len(cap[1]) == 2:
-        # the same selection written as a match: `match CONFIGURED.get() { Some(&v) => v, None => DEFAULT }`
-        cfgd = [m for m in cap[1] if strip_wrappers(m)[0] != "int"]
-        cst = [m for m in cap[1] if strip_wrappers(m)[0] == "int"]
-        if len(cfgd) == 1 and len(cst) == 1:
-            v = strip_refs(cfgd[0])
-            if v[0] == "field" and v[1] == 0 and v[2][0] == "downcast" and v[2][1] == "Some":
-                g = strip_wrappers(v[2][2])
-                if g[0] == "call" and g[2].startswith("std::sync::OnceLock") and g[2].endswith("::get") and _none_arm_gives_constant(b, tr, g[1]):
-                    st = _static_arg(b, tr, g[1])
-                    good = st is not None and st == cfg_static
-                    dflt = strip_wrappers(cst[0])
-    run.require(good, "O9.3", "spawn-capacity-expression", "spawn passes %s as capacity (expected CONFIGURED.get().copied().unwrap_or(DEFAULT) unchanged)" % show(cap),
-                "capacity = CONFIGURED.get().copied().unwrap_or(DEFAULT)", loc=loc_of(b, calls[0]))
-    run.require(dflt == ("int", DEFAULT_CAPACITY), "O9.3", "default-is-32", "the built-in default capacity evaluates to %s (documented: 32)" % (show(dflt) if dflt else None),
+    shown = "?"
+    try:
+        den = pathsem.denotation(f, b, project=lambda r: r[2][1] if r[0] == "callv" and r[1] == "spawn_with_mailbox_capacity" and len(r[2]) > 1 else ("?", r),
+                                 no_inline={"spawn_with_mailbox_capacity"})
+        shown = pathsem.show(den)
+        ent = sorted(den, key=str)
+        if len(ent) == 2 and all(len(c) == 1 for c, _ in ent):
+            (k1, p1), = ent[0][0]
+            (k2, p2), = ent[1][0]
+            if k1 == k2 and k1[0] == "some" and {p1, p2} == {True, False}:
+                g = k1[1]
+                st = None
+                if g[0] == "callv" and g[1].startswith("std::sync::OnceLock") and g[1].endswith("::get") and g[2]:
+                    a_ = g[2][0]
+                    a_ = a_[1] if a_[0] == "ref" else a_
+                    st = a_[1] if a_[0] == "static" else None
+                vs = {p: v for (c, v) in ent for (k, p) in c}
+                dflt = vs[False]
+                good = st is not None and st == cfg_static and vs[True] == ("payload", g) and dflt[0] == "int"
+    except pathsem.TooComplex as e:
+        shown = "not a loop-free computation (%s)" % e
+    run.require(good, "O9.3", "spawn-capacity-expression", "spawn passes { %s } as capacity (expected: the configured value if set_default_mailbox_capacity was called, else the built-in default, unchanged)" % shown[:300],
+                "capacity = the configured value when there is one, else the default: { %s }" % shown[:200], loc=loc_of(b, calls[0]))
+    run.require(dflt == ("int", DEFAULT_CAPACITY), "O9.3", "default-is-32", "the built-in default capacity evaluates to %s (documented: 32)" % (dflt,),
                 "DEFAULT_MAILBOX_CAPACITY == 32")
     a0 = tr.norm(tr.call_args(calls[0].idx)[0])
     run.require(a0 == ("param", 1), "O9.3", "spawn-args-forwarded", "spawn does not forward its args", "args forwarded")
